@@ -225,16 +225,20 @@ func genOption(c *Ctx) Case {
 			}
 			sig := randBytes(c, 16)
 			var text string
-			var fm, st int
-			if c.Rng.Intn(2) == 0 { // GPT
-				fm, st = 2, 2
+			// signature type (byte 41) and partition format (byte 40) are independent fields: usually
+			// equal (GPT/GPT, MBR/MBR), but any pair is a valid node; the text form follows the signature type
+			st := []int{1, 2, 1, 2, 0, c.Rng.Intn(256)}[c.Rng.Intn(6)]
+			fm := []int{st, st, 1, 2, c.Rng.Intn(256)}[c.Rng.Intn(5)]
+			switch st {
+			case 2: // GPT
 				text = fmt.Sprintf("HD(%d,GPT,%s,0x%x,0x%x)", part, guidTextLE(sig), binary.LittleEndian.Uint64(start), binary.LittleEndian.Uint64(size))
-			} else { // MBR: 32-bit signature, rest zero
-				fm, st = 1, 1
+			case 1: // MBR: 32-bit signature, rest zero
 				for j := 4; j < 16; j++ {
 					sig[j] = 0
 				}
 				text = fmt.Sprintf("HD(%d,MBR,0x%08x,0x%x,0x%x)", part, binary.LittleEndian.Uint32(sig), binary.LittleEndian.Uint64(start), binary.LittleEndian.Uint64(size))
+			default:
+				text = fmt.Sprintf("HD(%d,%d,0,0x%x,0x%x)", part, st, binary.LittleEndian.Uint64(start), binary.LittleEndian.Uint64(size))
 			}
 			s := fmt.Sprintf("hd:04012a00:%d:%s:%s:%s:%d:%d", part, hx(start), hx(size), hx(sig), fm, st)
 			nodes = append(nodes, s)
@@ -296,7 +300,7 @@ func c18Gen(c *Ctx) {
 
 func init() {
 	register("C18", &PropDef{
-		Rule:   "all 65536 boot numbers (exhaustive), each resolved through GetBootEntry on an in-memory store holding the firmware-named variable; boot orders of 0..64 entries; the captured Boot#### variables of tests/data/boot; generated load options of 0..5 nodes over PCI, ACPI, hard-drive (GPT and MBR, partition numbers incl. 0), file-path (ASCII, non-BMP, empty), firmware-file and USB nodes with arbitrary field values and five descriptions, encoded by the independent Spec encoder. Non-trivial: a non-empty order / an option longer than the minimal one; distinct = distinct cases.",
+		Rule:   "all 65536 boot numbers (exhaustive), each resolved through GetBootEntry on an in-memory store holding the firmware-named variable; boot orders of 0..64 entries; the captured Boot#### variables of tests/data/boot; generated load options of 0..5 nodes over PCI, ACPI, hard-drive (signature types GPT, MBR, none and arbitrary, with an equal or a different partition-format byte; partition numbers incl. 0), file-path (ASCII, non-BMP, empty), firmware-file and USB nodes with arbitrary field values and five descriptions, encoded by the independent Spec encoder. Non-trivial: a non-empty order / an option longer than the minimal one; distinct = distinct cases.",
 		Assume: []string{"load options handed to the in-process decoder are complete (truncated ones end the process on the unrepaired tree and are C14's domain)"},
 		Eval:   c18Eval, Gen: c18Gen,
 	})
